@@ -58,6 +58,10 @@ def configs(tier):
     out.append(("SF", "deflate", "huge", False))
     out.append(("SF", "null", "mid", True))
     # codec names in another letter case: either refused when the file is created, or a file that reads back like any other
+    # explicit compression levels between the usual ones
+    out.append(("S", "deflate@3", "mid", False))
+    out.append(("S", "deflate@5", "huge", False))
+    out.append(("S", "deflate@0", "one", False))
     out.append(("S", "Deflate", "mid", False))
     out.append(("S", "NULL", "one", False))
     for codec in codecs[:2]:
@@ -107,6 +111,10 @@ class World:
 
         self.fa, self.Writer = fa, Writer
         self.kind, self.codec, iv, self.validator = cfg
+        self.level = None
+        if "@" in self.codec:  # "deflate@3": codec with an explicit compression level
+            self.codec, lvl = self.codec.split("@")
+            self.level = int(lvl)
         self.on_file = self.kind == "SF"
         if self.on_file:
             self.kind = "S"
@@ -125,7 +133,7 @@ class World:
         meta = {"origin": "created"}
         Writer(io.BytesIO(), copy.deepcopy(S_OTHER), codec="deflate" if self.codec != "deflate" else "null", metadata=meta, sync_marker=b"o" * 16)
         self.w = Writer(self.fo, copy.deepcopy(self.schema), codec=self.codec, sync_interval=self.interval,
-                        validator=self.validator, sync_marker=self.marker, metadata=meta)
+                        validator=self.validator, sync_marker=self.marker, metadata=meta, compression_level=self.level)
         self.model = []
         self.counter = 0
         self.header = None
@@ -193,7 +201,7 @@ class World:
         elif op.startswith("reopen_"):
             self.w.flush()
             how = op[7:]
-            kw = dict(codec=self.codec, sync_interval=self.interval, validator=self.validator, sync_marker=self.marker)
+            kw = dict(codec=self.codec, sync_interval=self.interval, validator=self.validator, sync_marker=self.marker, compression_level=self.level)
             schema = None
             if how == "same":
                 schema = copy.deepcopy(self.schema)
@@ -329,7 +337,7 @@ def run_unit(ci, tier):
     ops = ops_for(cfg, tier)
     depth = DEPTH[tier]
     res = UnitResult()
-    if cfg[1] not in ("null", "deflate", "bzip2", "xz"):
+    if cfg[1].split("@")[0] not in ("null", "deflate", "bzip2", "xz"):
         try:
             World(fa, cfg).close()
         except ValueError as e:
